@@ -145,7 +145,7 @@ PATHS = [p for n in range(0, 4) for p in itertools.product('ab', repeat=n)]
 
 @bounded('E3', targets=['kopf._cogs.structs.diffs.diff', 'kopf._cogs.structs.diffs.reduce',
                         'kopf._core.intents.handlers.ResourceHandler.adjust_cause'],
-         props=['C04'],
+         props=['C04', 'C15'],
          clauses=['apply_diff_yields_new', 'empty_iff_equivalent', 'items_exact', 'reduce_is_diff_of_resolved',
                   'reduce_applies', 'adjust_cause_exact', 'adjust_cause_frame', 'pure'],
          universe='pairs (a,b) of JSON values: all of depth<=1 over keys {a,b} and leaves {None,0,1,"","x",[],[0],{}} '
@@ -1161,7 +1161,7 @@ class _AnnotationsAtLoopHead:
         return default
 
 
-@harness('E2p', targets='kopf._cogs.configs.diffbase.DiffBaseStorage.build', props=['C04'],
+@harness('E2p', targets='kopf._cogs.configs.diffbase.DiffBaseStorage.build', props=['C04', 'C05'],
          clauses=['dropped_iff_under_marked_prefix', 'drops_only_the_scanned_key', 'prefixes_come_from_detector'],
          canaries=['canary.drops_everything', 'canary.drops_nothing'],
          trusted=['copy.deepcopy / dicts.cherrypick / dicts.remove: structure-preserving helpers, exercised for real in E1'])
